@@ -596,4 +596,13 @@ func registerRound5() {
 		},
 		Check: bystandersServed, Quick: 2, Thor: 3,
 	})
+
+	// C11: Stop after a client has sent a request with message ID 0 and gone idle
+	for _, op := range []string{"bind", "search", "delete"} {
+		regSpec(&Spec{
+			Name: "stop-after-a-request-with-message-id-0-" + op, Props: []string{"C11", "C12", "C08"},
+			Conns:       []ConnSpec{{Ops: []string{op + "@0", "bind"}, Segs: []int{1, 1}, Expect: 1, End: "stay"}},
+			ClientsIdle: true, Quick: 2, Thor: 3,
+		})
+	}
 }
